@@ -320,15 +320,32 @@ class C16TagTimes(Oracle):
 
 
 class C36Reports(Oracle):
-    """Between two reports every tag whose value differs appears in the next report with its current value."""
+    """What the receiver knows after each report: a tag whose value differs from the last value reported for it (or, if it
+    was never reported, from its value when the previous report was taken) is in the next report, with its value at the
+    time of the report. A report may be taken while a tick lands in the middle of its drain (mid_tick)."""
 
     def __init__(self, world, plan, res):
         super().__init__(world, plan, res)
-        self.at_last_report: dict[str, Any] | None = None
+        self.known: dict[str, Any] | None = None
 
-    def report(self, snapshot: bool = False):
+    @staticmethod
+    def _same(a, b) -> bool:
+        if isinstance(a, float) and isinstance(b, float):
+            return abs(a - b) < 1e-9
+        return a == b or str(a) == str(b)
+
+    def report(self, snapshot: bool = False, mid_tick=None):
         w = self.w
-        tags = w.builder.collect_tag_updates(snapshot=snapshot)
+        pre = {t.name: t.as_readonly().value for t in w.engine._iter_all_tags()}
+        if mid_tick is not None:
+            w.hw.on_hook = mid_tick          # fires once, when the drain formats the HOOK tag
+        try:
+            tags = w.builder.collect_tag_updates(snapshot=snapshot)
+        finally:
+            fired = mid_tick is not None and w.hw.on_hook is None
+            w.hw.on_hook = None
+        if fired:
+            self.res.probe("tick_landed_inside_report_drain")
         names = [t.name for t in tags]
         if len(names) != len(set(names)):
             self.v("C36", "C36.duplicate_tag_in_report", "report", f"report lists a tag twice: {sorted(names)}")
@@ -338,21 +355,23 @@ class C36Reports(Oracle):
             missing = sorted(set(cur) - set(rep))
             if missing:
                 self.v("C36", "C36.snapshot_incomplete", missing[0], f"snapshot report misses {missing}")
-        if self.at_last_report is not None:
-            for n, val in cur.items():
-                if self.at_last_report.get(n) != val and n not in rep:
+        if self.known is not None:
+            for n, val in pre.items():
+                k = self.known.get(n, val)
+                if not self._same(k, val) and n not in rep:
                     self.v("C36", "C36.changed_tag_not_reported", n,
-                           f"{n} changed {self.at_last_report.get(n)!r} -> {val!r} since the previous report but is absent")
+                           f"{n} is {val!r}, the receiver last heard {k!r}, and the report does not list it")
         for n, val in rep.items():
-            c = cur.get(n)
-            if isinstance(c, float) and isinstance(val, float):
-                same = abs(c - val) < 1e-9
-            else:
-                same = c == val or str(c) == str(val)
-            if not same:
-                self.v("C36", "C36.reported_value_not_latest", n, f"{n} reported {val!r}, current value {c!r}")
-        self.at_last_report = cur
-        w.rec.log("report", len(tags))
+            if not (self._same(pre.get(n), val) or (fired and self._same(cur.get(n), val))):
+                self.v("C36", "C36.reported_value_not_latest", n,
+                       f"{n} reported {val!r}, value at the time of the report {pre.get(n)!r}"
+                       + (f" / after the tick that landed in it {cur.get(n)!r}" if fired else ""))
+        if self.known is None:
+            self.known = dict(pre)
+        for n, val in pre.items():
+            self.known.setdefault(n, val)
+        self.known.update(rep)
+        w.rec.log("report", len(tags), bool(fired))
         self.res.probe("report")
 
 
@@ -414,7 +433,8 @@ class C08SafeOutputs(Oracle):
         self.ev_pos_c08 = len(w.events)
         for ev in w.plog.events[self.cmd_pos:]:
             if ev[1] == "exec" and st == "Paused":
-                self.pause_cmd_writes |= {"Set1": {"OUT1"}, "Ramp": {"OUT1"}, "Valve": {"OUT2"}}.get(ev[2], set())
+                self.pause_cmd_writes |= {"Set1": {"OUT1"}, "Ramp": {"OUT1"}, "Valve": {"OUT2"}, "SlowOpen": {"OUT2"}, "SlowFull": {"OUT1"},
+                                          "OpenValve": {"OUT2"}, "Full": {"OUT1"}}.get(ev[2], set())
         self.cmd_pos = len(w.plog.events)
         # while no run is active the engine writes no other value to a safe-valued output
         if self.prev_state == "Stopped" and st == "Stopped":
@@ -538,9 +558,12 @@ class C09Unpause(Oracle):
             cur = self._outs()
             if self.shadow is not None:
                 self.res.probe("unpause_checked")
+                writers = {"Set1": "OUT1", "Ramp": "OUT1", "Valve": "OUT2", "SlowOpen": "OUT2", "SlowFull": "OUT1",
+                           "OpenValve": "OUT2", "Full": "OUT1"}
+                wrote_now = {writers[ev[2]] for ev in w.plog.events[self.pl_pos:] if ev[1] == "exec" and ev[2] in writers}
                 for n, ok_vals in self.shadow.items():
-                    if n in self.user_touched:
-                        continue
+                    if n in self.user_touched or n in wrote_now:
+                        continue        # (a command that executes in the very tick of the Unpause may set the output again)
                     if not (({cur[n]} | seen[n]) & ok_vals):
                         self.v("C09", "C09.unpause_restored_wrong_value", n,
                                f"Unpause left {n}={cur[n]!r} (values in that tick {sorted(map(str, seen[n]))}); "
